@@ -1,5 +1,8 @@
 import P2.Model.Basic
 import P2.Model.Json
+import P2.Model.Cmp
 import P2.Spec.JsonDec
+import P2.Spec.FMap
+import P2.Model.MapSt
 import P2.Model.Binning
 import P2.Spec.Histogram
